@@ -24,12 +24,16 @@ from common import Case, sx, parse_sx
 PROP = "C05"
 RULE = ("all 3 x 4 x 4 combinations of state_check_now in {unset, False, True} x state_hold, state_hold_false in {None, 0, "
         "2.5 s, 4.5 s} x initial truth x histories of <= 8 events at integer seconds mixing true/false evaluations, "
-        "attribute-only updates and unrelated changes, for decorators and task.wait_until (with an overall timeout in "
-        "{none, 1.25, 3.75, 6.25 s} - so that it also falls inside a running state_hold), under both subsystems; plus "
-        "triggers made ONLY of any-change names (pyscript.x / pyscript.x.a / pyscript.x.*) with state_check_now unset, "
-        "False and explicitly True; plus the closed witnesses of Props/C05; thorough: additionally every history of "
-        "length <= 4 over {T, F, A, U} at 1 s spacing.  Non-trivial = at least one evaluation / match (initial check "
-        "or event); distinct by payload.")
+        "attribute-only updates (attribute set, REMOVED, set again) and unrelated changes, for decorators and "
+        "task.wait_until (overall timeout in {none, 0, 0.0, 2^-10 s, 1.25, 3.75, 6.25 s, = state_hold_false} - also inside a "
+        "running state_hold, never tying with a hold deadline), under both subsystems; a boundary product of the "
+        "numeric options over {None, 0, 0.0, 2^-10 s, 2.5 s} (int vs float zero, very small, equal pairs; unset options "
+        "also spelled out as None); trigger expressions whose RESULT is bool / int (numeric strings with spaces, signs, "
+        "leading zeros) / str ('' vs 'x') / None vs 3 / [] vs [1] / membership in ('', 'None', 'unknown', 'unavailable'); "
+        "entity names with underscores and digits in several domains; triggers made ONLY of any-change names "
+        "(e / e.a / e.*) with state_check_now unset, False and explicitly True; the closed witnesses of Props/C05; "
+        "thorough: additionally every history of length <= 4 over {T, F, A, U} at 1 s spacing.  Non-trivial = at "
+        "least one evaluation / match (initial check or event); distinct by payload.")
 ASSUMPTIONS = [
     "time.monotonic / loop.time / dt_now are the virtual clock; timers fire exactly at their deadline (1 ms grid)",
     "event times are integer seconds, holds are 0 / 2.5 / 4.5 s: no event coincides with a hold deadline (NoTies); the "
@@ -45,8 +49,29 @@ TRUSTED = ["harness/run_C05.py (history -> HA operations on the virtual clock, c
            "harness/vclock.py, harness/ha_env.py"]
 
 HOLDS = [None, 0, 2.5, 4.5]
+SMALL = 2 ** -10           # a very small positive duration (binary-exact, < 1 ms; 0.001 is not exact in binary and makes
+#                            the new subsystem's `_cycle` spin on a frozen virtual clock - see the report, not a finding)
+BHOLDS = [None, 0, 0.0, SMALL, 2.5]      # boundary sweep: int 0, float 0.0, very small, and equal pairs (product)
 CHECK = [None, False, True]
-EXPR = "pyscript.x[0] == 't'"
+ENTITIES = ["pyscript.x", "pyscript.x_1", "sensor.t_2x", "input_number.a1_b2"]
+
+# expression families: what the trigger expression RETURNS for a true / false evaluation (pyscript tests it for truth)
+#   fam: (expression template on the entity {e}, values that make it truthy, values that make it falsy)
+FAMILIES = {
+    "bool": ("{e}[0] == 't'", ["t0", "t1", "t2", "t3", "t4", "t5", "t6", "t7", "t8"],
+             ["f0", "f1", "f2", "f3", "f4", "f5", "f6", "f7", "f8"]),
+    # int result: 0 / non-zero, numeric strings with spaces, signs and leading zeros
+    "int": ("int({e})", ["1", " 2", "3 ", "+4", "-5", "10", " 07 "], ["0", "00", " 0", "0 ", "-0", "+0", " 000 "]),
+    # str result: '' / 'x'
+    "str": ("{e}[1:]", ["ab", "xy", "v1", "v2", "q0", "zz9"], ["a", "b", "c", "d", "e", "g"]),
+    # None / 3
+    "none": ("(3 if {e}[0] == 't' else None)", ["t0", "t1", "t2", "t3", "t4", "t5"], ["f0", "f1", "f2", "f3", "f4", "f5"]),
+    # [] / [1]
+    "list": ("([1] if {e}[0] == 't' else [])", ["t0", "t1", "t2", "t3", "t4", "t5"], ["f0", "f1", "f2", "f3", "f4", "f5"]),
+    # special state values on the falsy side: '', 'None', 'unknown', 'unavailable'
+    "special": ("{e} not in ('', 'None', 'unknown', 'unavailable')", ["on", "x", " 3 ", "0", "none", "Unknown"],
+                ["", "None", "unknown", "unavailable"]),
+}
 
 
 # ------------------------------------------------------------------ generation
@@ -82,7 +107,20 @@ WITNESSES = [
     ("wu", False, True, None, None, True, [[2, "A"]], "attr", 3.75),
 ]
 TIMEOUTS = [None, None, 1.25, 3.75, 6.25]
-NAMES = {"val": "pyscript.x", "attr": "pyscript.x.a", "star": "pyscript.x.*"}
+NAMEFORMS = {"val": "{e}", "attr": "{e}.a", "star": "{e}.*"}
+
+
+def pick_timeout(rng, s, h, cn, api, b0):
+    """overall timeout of task.wait_until: typical values, a very small one, one EQUAL to state_hold_false, and 0 / 0.0 -
+    never one that ties with a hold deadline (k + S) or with the initial candidate"""
+    opts = list(TIMEOUTS) + [SMALL]
+    if h in (2.5, 4.5) and s not in (2.5, 4.5):
+        opts += [h, h]                                   # timeout == state_hold_false
+    if not (eff_check(api, cn) and b0):
+        opts += [0, 0.0]                                 # nothing else can happen at time 0
+    if s == SMALL:
+        opts = [o for o in opts if o != SMALL]
+    return rng.choice(opts)
 
 
 def gen_cases(rng, tier, search):
@@ -90,37 +128,52 @@ def gen_cases(rng, tier, search):
     if search:
         per = 8 if tier == "quick" else 30
     cases = []
+    fams = sorted(FAMILIES)
     for api, legacy, cn, s, h, b0, hist, names, tmo in WITNESSES:
         for lg in (True, False):
             cases.append(make_case(api, lg, cn, s, h, b0, hist, names, tmo))
     for cn, s, h in itertools.product(CHECK, HOLDS, HOLDS):
         for b0 in (False, True):
-            hists = [rnd_hist(rng) for _ in range(per)]
-            for hist in hists:
-                tmo = rng.choice(TIMEOUTS)
+            for _ in range(per):
+                hist = rnd_hist(rng)
+                extra = {"fam": rng.choice(fams), "ent": rng.choice(ENTITIES), "xnone": rng.random() < 0.3}
+                tmo = pick_timeout(rng, s, h, cn, "wu", b0)
                 for legacy in (True, False):
-                    cases.append(make_case("dec", legacy, cn, s, h, b0, hist))
-                    cases.append(make_case("wu", legacy, cn, s, h, b0, hist, None, tmo))
+                    cases.append(make_case("dec", legacy, cn, s, h, b0, hist, **extra))
+                    cases.append(make_case("wu", legacy, cn, s, h, b0, hist, None, tmo, **extra))
+    # boundary sweep of the numeric options: 0 vs 0.0 vs a very small value vs None, and equal pairs
+    for cn, s, h in itertools.product(CHECK, BHOLDS, BHOLDS):
+        if repr(s) in map(repr, HOLDS) and repr(h) in map(repr, HOLDS) and not search:   # repr: 0.0 is not 0 here
+            continue                                       # already in the main product
+        b0 = rng.random() < 0.5
+        hist = rnd_hist(rng, 6)
+        extra = {"fam": rng.choice(fams), "ent": rng.choice(ENTITIES), "xnone": rng.random() < 0.3}
+        tmo = pick_timeout(rng, s, h, cn, "wu", b0)
+        for legacy in (True, False):
+            cases.append(make_case("dec", legacy, cn, s, h, b0, hist, **extra))
+            cases.append(make_case("wu", legacy, cn, s, h, b0, hist, None, tmo, **extra))
     # triggers made only of any-change names (no expression), state_check_now unset / False / explicitly True
-    for cn, s, form in itertools.product(CHECK, HOLDS, sorted(NAMES)):
+    for cn, s, form in itertools.product(CHECK, HOLDS, sorted(NAMEFORMS)):
         for _ in range(1 if tier == "quick" and not search else 4):
             h = rng.choice([None, None, 2.5])
             hist = rnd_hist(rng, 5)
             b0 = rng.random() < 0.5
-            tmo = rng.choice(TIMEOUTS)
+            extra = {"ent": rng.choice(ENTITIES), "xnone": rng.random() < 0.3}
+            tmo = pick_timeout(rng, s, None, False, "dec", False)
             for legacy in (True, False):
-                cases.append(make_case("dec", legacy, cn, s, h, b0, hist, form))
-                cases.append(make_case("wu", legacy, cn, s, h, b0, hist, form, tmo))
+                cases.append(make_case("dec", legacy, cn, s, h, b0, hist, form, **extra))
+                cases.append(make_case("wu", legacy, cn, s, h, b0, hist, form, tmo, **extra))
     if tier == "thorough" and not search:
         for n in range(0, 5):
             for kinds in itertools.product("TFAU", repeat=n):
                 hist = [[i + 1, k] for i, k in enumerate(kinds)]
-                cn, s, h = rng.choice(CHECK), rng.choice(HOLDS), rng.choice(HOLDS)
+                cn, s, h = rng.choice(CHECK), rng.choice(BHOLDS + [4.5]), rng.choice(BHOLDS + [4.5])
                 b0 = rng.random() < 0.5
-                tmo = rng.choice(TIMEOUTS)
+                extra = {"fam": rng.choice(fams), "ent": rng.choice(ENTITIES), "xnone": rng.random() < 0.3}
+                tmo = pick_timeout(rng, s, h, cn, "wu", b0)
                 for legacy in (True, False):
-                    cases.append(make_case("dec", legacy, cn, s, h, b0, hist))
-                    cases.append(make_case("wu", legacy, cn, s, h, b0, hist, None, tmo))
+                    cases.append(make_case("dec", legacy, cn, s, h, b0, hist, **extra))
+                    cases.append(make_case("wu", legacy, cn, s, h, b0, hist, None, tmo, **extra))
     return cases
 
 
@@ -146,18 +199,28 @@ def kinds_of(names, hist):
     return [[t * 1000, KIND[names][k], i + 1] for i, (t, k) in enumerate(hist)]
 
 
-def make_case(api, legacy, cn, s, h, b0, hist, names=None, timeout=None):
+def make_case(api, legacy, cn, s, h, b0, hist, names=None, timeout=None, fam="bool", ent="pyscript.x", xnone=False):
     if api == "dec":
         timeout = None
+    if names:
+        fam = "bool"
     line = "C05 " + sx([api + ("n" if names else ""), "legacy" if legacy else "new", eff_check(api, cn),
                         "none" if s is None else ms(s), "none" if h is None else ms(h), b0, kinds_of(names, hist),
                         "none" if timeout is None else ms(timeout)])
-    tags = [api, "legacy" if legacy else "new", f"check_now={cn}", f"hold={s}", f"hold_false={h}", f"b0={b0}",
-            f"names={names}", f"timeout={timeout}"]
+    tags = [api, "legacy" if legacy else "new", f"check_now={cn}", f"hold={s!r}", f"hold_false={h!r}", f"b0={b0}",
+            f"names={names}", f"timeout={timeout!r}", f"fam={fam}", f"ent={ent}"]
+    if xnone:
+        tags.append("bv:options-explicit-None")
+    if s is not None and s == h:
+        tags.append("bv:hold==hold_false")
+    if timeout is not None and timeout == h:
+        tags.append("bv:timeout==hold_false")
+    if sum(1 for _, k in hist if k == "A") >= 2:
+        tags.append("bv:attribute-removed")
     for _, k in hist:
         tags.append("ev:" + k)
     return Case({"api": api, "legacy": legacy, "check_now": cn, "hold": s, "hold_false": h, "b0": b0, "hist": hist,
-                 "names": names, "timeout": timeout}, line, tags=tags)
+                 "names": names, "timeout": timeout, "fam": fam, "ent": ent, "xnone": xnone}, line, tags=tags)
 
 
 # ------------------------------------------------------------------ the real code
@@ -165,21 +228,28 @@ def kw_src(p):
     parts = []
     if p["check_now"] is not None:
         parts.append(f"state_check_now={p['check_now']}")
-    if p["hold"] is not None:
+    if p["hold"] is not None or p.get("xnone"):          # xnone: spell the unset numeric options out as None
         parts.append(f"state_hold={p['hold']!r}")
-    if p["hold_false"] is not None:
+    if p["hold_false"] is not None or p.get("xnone"):
         parts.append(f"state_hold_false={p['hold_false']!r}")
     return "".join(", " + x for x in parts)
 
 
+def trig_src(p):
+    ent = p.get("ent", "pyscript.x")
+    if p.get("names"):
+        return NAMEFORMS[p["names"]].format(e=ent)
+    return FAMILIES[p.get("fam", "bool")][0].format(e=ent)
+
+
 def script_src(p):
-    trig = NAMES[p["names"]] if p.get("names") else EXPR
+    trig = trig_src(p)
     if p["api"] == "dec":
         return (f'@state_trigger("{trig}"{kw_src(p)})\n'
                 "def f(**kw):\n"
                 "    c = kw.get('context')\n"
                 "    rec('run', c.id if c is not None else None, kw.get('trigger_type'))\n")
-    tmo = f", timeout={p['timeout']!r}" if p.get("timeout") is not None else ""
+    tmo = f", timeout={p['timeout']!r}" if p.get("timeout") is not None else (", timeout=None" if p.get("xnone") else "")
     return ("@service\n"
             "def waiter():\n"
             f'    r = task.wait_until(state_trigger="{trig}"{kw_src(p)}{tmo})\n'
@@ -193,7 +263,11 @@ def run_one(p):
     src = script_src(p)
 
     async def body(env):
-        env.hass.states.async_set("pyscript.x", "t0" if p["b0"] else "f0", {})
+        ent = p.get("ent", "pyscript.x")
+        _, tvals, fvals = FAMILIES[p.get("fam", "bool")]
+        nxt = {"T": 1, "F": 1}                       # index 0 is the initial value
+        cur = tvals[0] if p["b0"] else fvals[0]
+        env.hass.states.async_set(ent, cur, {})
         env.hass.states.async_set("pyscript.y", "0", {})
         await env.settle(0)
         env.write("t.py", src)
@@ -203,18 +277,24 @@ def run_one(p):
             await env.call("pyscript", "waiter", blocking=False)
             await env.settle(0.001)
         attr = 0
-        cur = "t0" if p["b0"] else "f0"
         attrs = {}
         for i, (t, k) in enumerate(p["hist"]):
             await env.settle_until(t0 + t)
             ctx = Context(id=f"c{i + 1}")
             if k in "TF":
-                cur = f"{k.lower()}{i + 1}"
-                env.hass.states.async_set("pyscript.x", cur, dict(attrs), context=ctx)
+                vals = tvals if k == "T" else fvals
+                v = vals[nxt[k] % len(vals)]
+                if v == cur:                          # a change needs a different value
+                    nxt[k] += 1
+                    v = vals[nxt[k] % len(vals)]
+                nxt[k] += 1
+                cur = v
+                env.hass.states.async_set(ent, cur, dict(attrs), context=ctx)
             elif k == "A":
                 attr += 1
-                attrs = {"a": str(attr)}
-                env.hass.states.async_set("pyscript.x", cur, dict(attrs), context=ctx)
+                # attribute a is set, then REMOVED again (empty attribute dict), then set to the next value, …
+                attrs = {} if attrs else {"a": str(attr)}
+                env.hass.states.async_set(ent, cur, dict(attrs), context=ctx)
             else:
                 env.hass.states.async_set("pyscript.y", str(i + 1), {}, context=ctx)
             await env.settle(0)
@@ -396,7 +476,8 @@ def classify(c, reason):
 def replay_cases(obj):
     p = obj["case"]
     return [make_case(p["api"], p["legacy"], p["check_now"], p["hold"], p["hold_false"], p["b0"], p["hist"],
-                      p.get("names"), p.get("timeout"))]
+                      p.get("names"), p.get("timeout"), p.get("fam", "bool"), p.get("ent", "pyscript.x"),
+                      p.get("xnone", False))]
 
 
 def shrink(c, reason):
@@ -413,7 +494,8 @@ def shrink(c, reason):
             q = dict(p)
             q["hist"] = p["hist"][:i] + p["hist"][i + 1:]
             c2 = make_case(q["api"], q["legacy"], q["check_now"], q["hold"], q["hold_false"], q["b0"], q["hist"],
-                           q.get("names"), q.get("timeout"))
+                           q.get("names"), q.get("timeout"), q.get("fam", "bool"), q.get("ent", "pyscript.x"),
+                           q.get("xnone", False))
             try:
                 run_impl([c2])
                 c2.model, c2.spec = split(common.drive([c2.line])[0])
